@@ -582,6 +582,9 @@ static bool gen_fmt(Bld &b, bool viol, bool wide) {
         int k = r.below(10);
         cap = k < 6 ? 8 + r.below(120) : k < 8 ? 1 + r.below(12) : 200 + r.below(400);
     }
+    // %lc first copies the converted character (up to 5 bytes) to the START of dest, whatever dmax is (an unrelated
+    // out-of-bounds write, C01): give such calls room, so that it does not spill into the neighbouring operand
+    if (!wide && fmt.find("lc") != std::string::npos && cap < 8) cap = 8 + r.below(16);
     uint32_t esz = wide ? 4 : 1;
     std::string init = wide ? wbytes(rwstr(r, std::min<uint32_t>(cap - 1, 5), 0)) : rstr(r, std::min<uint32_t>(cap - 1, 5), 0) + std::string(1, '\0');
     uint32_t doff = b.put(init, esz, cap * esz);
